@@ -252,3 +252,72 @@ pub fn c03_call_sequences_4() {
     assert!(wf_ref == wf_out);
     kani::cover!(matches!(wf_out, Wf::Ok { end: 4, .. }), "a balanced 4-call sequence exists");
 }
+
+/// An iterator with an arbitrary (but lawful) size hint: it yields `n` items and reports any
+/// `(lo, hi)` with `lo <= n` and (`hi` absent or `n <= hi`).
+#[derive(Clone)]
+pub struct Hinted { n: u8, i: u8, lo: usize, hi: Option<usize> }
+impl Iterator for Hinted {
+    type Item = u8;
+    fn next(&mut self) -> Option<u8> { if self.i < self.n { self.i += 1; Some(self.i) } else { None } }
+    fn size_hint(&self) -> (usize, Option<usize>) { (self.lo, self.hi) }
+}
+fn any_hinted() -> Hinted {
+    let n: u8 = kani::any();
+    kani::assume(n <= 2);
+    let lo: usize = kani::any();
+    kani::assume(lo <= n as usize);
+    let hi: Option<usize> = if kani::any() { let h: usize = kani::any(); kani::assume(h >= n as usize && h <= 3); Some(h) } else { None };
+    Hinted { n, i: 0, lo, hi }
+}
+
+/// `encode::ArrayIter` over any lawful iterator: the output is exactly one well-formed array
+/// (definite with the right count, or indefinite closed by a break) holding the items in order.
+#[kani::proof]
+#[kani::unwind(8)]
+pub fn c03_array_iter_any_size_hint() {
+    let it = any_hinted();
+    let n = it.n as usize;
+    let mut e = Encoder::new(Cursor::new([0u8; 8]));
+    assert!(e.encode(minicbor::encode::ArrayIter::new(it.clone())).is_ok());
+    let c = e.into_writer();
+    let pos = c.position();
+    let out = c.into_inner();
+    match wellformed::<2>(&out[..], 0, 5) {
+        Wf::Ok { end, .. } => assert!(end == pos, "ArrayIter output is not exactly one item"),
+        _ => assert!(false, "ArrayIter output is not well-formed"),
+    }
+    if out[0] == 0x9f { assert!(pos == n + 2 && out[n + 1] == 0xff) } else { assert!(out[0] == 0x80 | n as u8 && pos == n + 1, "definite head does not carry the number of items") }
+    let mut i = 0;
+    while i < 2 { if i < n { assert!(out[1 + i] == (i + 1) as u8); } i += 1; }
+    kani::cover!(out[0] == 0x9f && n == 2);
+    kani::cover!(out[0] == 0x82);
+}
+
+#[derive(Clone)]
+pub struct HintedPairs(Hinted);
+impl Iterator for HintedPairs {
+    type Item = (u8, bool);
+    fn next(&mut self) -> Option<(u8, bool)> { self.0.next().map(|k| (k, true)) }
+    fn size_hint(&self) -> (usize, Option<usize>) { self.0.size_hint() }
+}
+
+/// `encode::MapIter` likewise.
+#[kani::proof]
+#[kani::unwind(8)]
+pub fn c03_map_iter_any_size_hint() {
+    let it = HintedPairs(any_hinted());
+    let n = it.0.n as usize;
+    let mut e = Encoder::new(Cursor::new([0u8; 8]));
+    assert!(e.encode(minicbor::encode::MapIter::new(it.clone())).is_ok());
+    let c = e.into_writer();
+    let pos = c.position();
+    let out = c.into_inner();
+    match wellformed::<2>(&out[..], 0, 6) {
+        Wf::Ok { end, .. } => assert!(end == pos, "MapIter output is not exactly one item"),
+        _ => assert!(false, "MapIter output is not well-formed"),
+    }
+    if out[0] == 0xbf { assert!(pos == 2 * n + 2 && out[2 * n + 1] == 0xff) } else { assert!(out[0] == 0xa0 | n as u8 && pos == 2 * n + 1, "definite head does not carry the number of entries") }
+    kani::cover!(out[0] == 0xbf && n == 2);
+    kani::cover!(out[0] == 0xa2);
+}
